@@ -1,10 +1,12 @@
 """C04 — every revoked commitment can be punished from persisted data.
 
 Channel-history layers (revocation-log bookkeeping, retribution decision table; Channel/Punish*.v,
-harness/lnwallet/verif_punish_test.go) + the script layer (props/c0405_script.py) as an extra stage."""
-from props import punish_check
+harness/lnwallet/verif_punish_test.go) + the script layer (props/c0405_script.py) as an extra stage
++ the chain-watcher stage (props/breachwatch.py, harness/contractcourt/verif_breachwatch_test.go):
+the watcher recognises every revoked commitment from its own, early-loaded OpenChannel."""
+from props import punish_check, breachwatch
 
-WARM = punish_check.WARM
+WARM = punish_check.WARM + breachwatch.WARM
 
 
 def run(ctx):
